@@ -79,6 +79,27 @@ Theorem rate_limited_queue_is_fifo : forall ops : list qop,
 Proof. intros ops. exact (conj (q_run_order ops q_init) (q_fifo_total ops)). Qed.
 Print Assumptions rate_limited_queue_is_fifo.
 
+(** Reconnecting the same client object: whatever the queue and its timer were doing (state [st]),
+    after [connectionMade] the lines handed to sendLine are again written in order -- first what
+    the new transport has received, then what is still queued -- and draining writes them all. *)
+Theorem reconnect_keeps_fifo : forall (st : qstate) (ops : list qop),
+  q_sent (q_run (q_connect st) ops) ++ q_queue (q_run (q_connect st) ops) = q_sends ops
+  /\ q_sent (q_run (q_run (q_connect st) ops) (repeat QTick (length (q_queue (q_run (q_connect st) ops)))))
+     = q_sends ops.
+Proof. intros st ops. exact (q_fifo_from (q_connect st) ops eq_refl eq_refl). Qed.
+Print Assumptions reconnect_keeps_fifo.
+
+(** CTCP at message level: ctcpExtract (ctcpStringify msgs) gives back every (tag, data) -- any data,
+    including leading / trailing / only spaces, X-DELIM, backslashes -- in order, with no "normal"
+    text; the one thing not preserved is that empty data comes back as absent data.  (Tags contain no
+    space; a message is not the empty tag with no data.) *)
+Theorem ctcpExtract_ctcpStringify : forall msgs : list (list N * option (list N)),
+  Forall (fun m => ~ In 32 (fst m) /\ ctcp_body m <> []) msgs ->
+  ctcp_extract (ctcp_stringify msgs)
+  = (map (fun m => (fst m, match snd m with Some [] => None | d => d end)) msgs, []).
+Proof. exact ctcp_message_roundtrip. Qed.
+Print Assumptions ctcpExtract_ctcpStringify.
+
 (** FULL STATEMENT (false, finding F17): every sent line is at most [limit] OCTETS.
     Proved part: it holds when fmt and the message are plain ASCII (no NUL, CR, DLE; LF allowed
     in the message) ... *)
